@@ -209,6 +209,18 @@ def _run_npt(ctx, spec, rng):
             rho = 0.98 * rho + 0.02 * gen.product_state_mixture(rng, da, db, 1, cplx)
         rho = ref.herm(rho) if cplx else ref.herm(rho).real
         margin = 1e-3
+    if (r // 12) % 4 == 3 or (r // 12) % 8 == 4:
+        # nearly a product state, entrywise within 1e-5 relative of rho_A (x) rho_B, yet its partial transpose has an eigenvalue about -w/2, which is
+        # 20 .. 5000 times beyond the 1e-8 tolerance: a generic product vector (no zero entries) plus a weight w = 5e-7 .. 1e-4 of an entangled one
+        a_, b_ = gen.unit(rng, da, cplx), gen.unit(rng, db, cplx)
+        prod = np.kron(a_, b_)
+        coeffs = np.zeros(min(da, db))
+        coeffs[0] = coeffs[1] = np.sqrt(0.5)
+        psi, _, _ = gen.schmidt_state(rng, da, db, coeffs, cplx)
+        w = float(10 ** rng.uniform(-6.3, -4))
+        rho = ref.herm((1 - w) * np.outer(prod, prod.conj()) + w * np.outer(psi, psi.conj()))
+        rho = rho if cplx else rho.real
+        margin = 2e-7
     lam_min = ref.eigmin(ref.partial_transpose(rho, [1], [da, db], [da, db]))
     if lam_min > -margin:
         return ctx.note_inconclusive("npt-margin")
